@@ -21,6 +21,9 @@ Model driver for C19. Line protocol (fields separated by one space; strings are 
   keepseq <remote>:<tok>;…                     remoteClient calls in sequence on ONE remoteProxy
   keepgetseq <remote>[+<remote>…]:<tok>;…      Get requests in sequence on ONE remoteProxy, each
                                                locator with one or more +R hints
+  kproc <cfg> <auths>:<hash>+<hint>+…;…        Get requests in sequence on a keepstore process that has
+                                               just started (no remote keep client yet): cfg = configured
+                                               remote ids (','), auths = - | Authorization values (',')
 
   M  method                      A  - | p.<raw header> | b.<user>.<password>
   Q  - | item,item,…  (item = <key>=<value> | !)          K  - | t.<token> | r.<raw Cookie header>
@@ -34,6 +37,7 @@ The MAC is the executable HMAC-SHA1 of Base/SHA1.lean with key = secret, message
 import ArvVerif.Base.SHA1
 import ArvVerif.Base.Loop
 import ArvVerif.Model.C19
+import ArvVerif.Model.C19_Keep
 open ArvVerif ArvVerif.C19
 
 def toBA (s : Str) : ByteArray := ByteArray.mk (s.map (fun c => UInt8.ofNat c.toNat)).toArray
@@ -185,8 +189,33 @@ def parseSteps (s : String) : Option (List (List Str × Str)) :=
       some (remotes, (← unhexC t))
     | _ => none)
 
+def showKeepEvent : KeepEvent → String
+  | .discovery r a => "d@" ++ hex r ++ "@" ++ hexC a
+  | .services r a => "s@" ++ hex r ++ "@" ++ hexC a
+  | .block (.svc r) loc a => "b@r." ++ hex r ++ "@" ++ hex loc ++ "@" ++ hexC a
+  | .block (.ext x) loc a =>
+    "b@x." ++ hex ("https://keep.".toList ++ x ++ ".arvadosapi.com".toList) ++ "@" ++ hex loc ++ "@" ++ hexC a
+
+def showKeepStep (st : KeepStep) : String :=
+  s!"{st.status}/" ++ (if st.events.isEmpty then "-" else "|".intercalate (st.events.eraseDups.map showKeepEvent))
+
+def parseKeepReq (s : String) : Option KeepReq :=
+  match s.splitOn ":" with
+  | [a, l] => do
+    let auths ← if a == "-" then some [] else (a.splitOn ",").mapM unhexC
+    match ← (l.splitOn "+").mapM unhexC with
+    | hash :: hints => some ⟨auths, hash, hints⟩
+    | [] => none
+  | _ => none
+
 def step (line : String) : String :=
   match fields line with
+  | ["kproc", cfg, steps] =>
+    match (if cfg == "-" then some [] else (cfg.splitOn ",").mapM unhexC), (steps.splitOn ";").mapM parseKeepReq with
+    | some cfg, some reqs =>
+      ";".intercalate ((keepProc hmacSha1 cfg [] reqs).map showKeepStep) ++ " C=" ++
+        hexList ((keepProcCache hmacSha1 cfg [] reqs).map (fun _ => placeholderToken))
+    | _, _ => "bad-op"
   | ["salt", t, r] =>
     match unhex t, unhex r with
     | some t, some r => showSalt (saltToken hmacSha1 t r)
